@@ -97,6 +97,44 @@ func (e *Explorer) schedPoint() {
 	}
 }
 
+// ---- the single pooled database connection (SQLiteStore runs with SetMaxOpenConns(1)) ----
+// In SQL-model mode with a second thread, taking the connection (db.Conn, or a statement issued on the
+// *sql.DB itself) is a scheduling point like a mutex acquisition, and it BLOCKS while the other thread
+// holds the connection: control is handed over until it is released. A connection that is never
+// released shows up as a deadlock (path aborted with that reason).
+
+func (e *Explorer) acquireConn() {
+	if e.thrB == nil || !e.SQLModel {
+		return
+	}
+	e.schedPoint()
+	for e.connOwner >= 0 && e.connOwner != e.cur {
+		if e.cur == 0 {
+			if e.thrB.done {
+				panic(abortPath{"deadlock: the pooled connection was never released by the other thread"})
+			}
+			e.runOther()
+		} else {
+			if e.joining || e.mainDone {
+				panic(abortPath{"deadlock: the pooled connection was never released by the main thread"})
+			}
+			e.yieldToMain()
+		}
+	}
+	e.connOwner = e.cur
+	event("conn:acquire")
+}
+
+func (e *Explorer) releaseConn() {
+	if e.thrB == nil && e.connOwner < 0 {
+		return
+	}
+	if e.connOwner == e.cur {
+		e.connOwner = -1
+		event("conn:release")
+	}
+}
+
 // joinThread runs thread B to completion (called on the main thread).
 func (e *Explorer) joinThread() {
 	t := e.thrB
@@ -124,6 +162,7 @@ func (e *Explorer) killThreads() {
 	e.cur = 0
 	e.joining = false
 	e.mainDone = false
+	e.connOwner = -1
 }
 
 func init() {
